@@ -58,6 +58,11 @@ theorem C18_third_pass_counts (t : TTables) (pws : List Str) (k : Option Nat) :
     ctrGet (t.levelsCount pws) k = pws.countP (fun pw => t.trainerLevel pw == k) :=
   ctrGet_levelsCount t pws k
 
+/-- ... and every password of the list is tallied exactly once: the counts of `omen_pws_per_level.txt` (the line for −1 included) add
+up to the number of passwords read -/
+theorem C18_third_pass_total (t : TTables) (pws : List Str) : ((t.levelsCount pws).map (·.2)).sum = pws.length :=
+  levelsCount_total t pws
+
 /-- **the saved probability.**  Every line `(level, p)` of `pcfg_omen_prob` (exact arithmetic; the list of the
 training passwords is the one all three passes read, so `num_valid_passwords = pws.length`): the generator's
 enumeration of that level is complete after some `N` steps, it is not empty, and `p` is the fraction of the
